@@ -27,6 +27,10 @@ func genLog(rng *cq.Rng, tag string, m int) []logEntry {
 		if rng.Intn(3) == 0 {
 			k = 1 + rng.Intn(5)
 		}
+		if strings.HasPrefix(tag, "big") {
+			// large bulks: more than 1000 events (and hyper cache tiles) after a handful of entries
+			k = 200 + rng.Intn(60)
+		}
 		var evs []hashing.Digest
 		for j := 0; j < k; j++ {
 			evs = append(evs, digestOf(tag, ev))
